@@ -144,7 +144,7 @@ pub fn run(ctx: &Ctx, st: &mut Stats) {
             st.eval(&C::ab(K::SubTime, a, b), check);
         }
     }
-    let n = ctx.tier.pick(1_000, 3_000_000, 40_000_000);
+    let n = ctx.tier.pick(1_000, 3_000_000, ctx.big(40_000_000, 400_000_000));
     ctx.par(st, "random/(time, interval) pairs", false, 0, n, |st, _, rng| {
         let t = if rng.chance(1, 10) { *rng.pick(&[0, 1, DAY_US - 1, DAY_US / 2]) } else { rng.range_i64(0, DAY_US - 1) };
         let c = match rng.below(6) {
